@@ -326,27 +326,6 @@ impl World {
         m
     }
 
-    fn call_listeners_connected(&self, block: &Block, height: u32) {
-        let txdata: Vec<(usize, &Transaction)> = block.txdata.iter().enumerate().collect();
-        for w in &self.listener_order {
-            match w {
-                0 => self.gatekeeper.filtered_block_connected(&block.header, &txdata, height),
-                1 => self.watcher.filtered_block_connected(&block.header, &txdata, height),
-                _ => self.responder.filtered_block_connected(&block.header, &txdata, height),
-            }
-        }
-    }
-
-    fn call_listeners_disconnected(&self, block: &Block, height: u32) {
-        for w in &self.listener_order {
-            match w {
-                0 => self.gatekeeper.block_disconnected(&block.header, height),
-                1 => self.watcher.block_disconnected(&block.header, height),
-                _ => self.responder.block_disconnected(&block.header, height),
-            }
-        }
-    }
-
     /// Executes one operation on the real tower; appends the canonical result tokens to `line`.
     /// Returns false when the real code panicked (the history ends there).
     pub fn exec(&mut self, op: &Op, script: &Script, line: &mut Line) -> bool {
@@ -370,35 +349,32 @@ impl World {
     }
 
     fn exec_inner(&mut self, op: &Op) -> Vec<String> {
-        let mut out: Vec<String> = Vec::new();
+        let (call, meta) = self.prepare(op);
+        let reply = self.runner().run(call);
+        self.render(&meta, reply)
+    }
+
+    /// What is needed to run calls on the real components from any thread.
+    pub fn runner(&self) -> Runner {
+        Runner {
+            api: self.api.clone(),
+            gatekeeper: self.gatekeeper.clone(),
+            watcher: self.watcher.clone(),
+            responder: self.responder.clone(),
+            order: self.listener_order.clone(),
+        }
+    }
+
+    /// Builds the concrete request / block for an abstract operation (no effect on the tower).
+    pub fn prepare(&mut self, op: &Op) -> (Call, Meta) {
         match op {
             Op::Register(uid) => {
                 let (_, pk) = self.user(*uid);
                 let req = common_msgs::RegisterRequest { user_id: pk.serialize().to_vec() };
-                match self.rt.block_on(self.api.register(Request::new(req))) {
-                    Ok(resp) => {
-                        let r = resp.into_inner();
-                        let receipt = RegistrationReceipt::with_signature(
-                            UserId(pk),
-                            r.available_slots,
-                            r.subscription_start,
-                            r.subscription_expiry,
-                            r.subscription_signature.clone(),
-                        );
-                        let ok = receipt.verify(&self.tower_id) && r.user_id == pk.serialize().to_vec();
-                        out.push("RO".into());
-                        out.push(r.available_slots.to_string());
-                        out.push(r.subscription_start.to_string());
-                        out.push(r.subscription_expiry.to_string());
-                        out.push((ok as u8).to_string());
-                    }
-                    Err(st) => {
-                        out.push(if st.code() == Code::ResourceExhausted { "RM".into() } else { format!("R?{}", hex_status(st.code())) });
-                    }
-                }
+                (Call::Register(req), Meta::Register(pk))
             }
-            Op::Add { signer: _, class, loc, blob, delay } => {
-                let uid = if let Op::Add { signer, .. } = op { *signer } else { -1 };
+            Op::Add { signer, class, loc, blob, delay } => {
+                let uid = *signer;
                 let locator = self.locator(*loc);
                 let bytes = self.blobs[*blob].0.clone();
                 // the message this request type defines, built independently of Appointment::to_vec
@@ -417,20 +393,7 @@ impl World {
                     }),
                     signature: sig.clone(),
                 };
-                match self.rt.block_on(self.api.add_appointment(Request::new(req))) {
-                    Ok(resp) => {
-                        let r = resp.into_inner();
-                        // the client-side verifier: the receipt binds the user's own signature and the start block
-                        let receipt = AppointmentReceipt::with_signature(sig, r.start_block, r.signature.clone());
-                        let ok = receipt.verify(&self.tower_id) && r.locator == locator.to_vec();
-                        out.push("AO".into());
-                        out.push(r.start_block.to_string());
-                        out.push(if ok { sid.to_string() } else { "-1".into() });
-                        out.push(r.available_slots.to_string());
-                        out.push(r.subscription_expiry.to_string());
-                    }
-                    Err(st) => out.extend(add_err_tokens(&st)),
-                }
+                (Call::Add(req), Meta::Add { locator: locator.to_vec(), sig, sid })
             }
             Op::Get { signer, class, loc } => {
                 let locator = self.locator(*loc);
@@ -438,74 +401,113 @@ impl World {
                 let signing_uid = if *signer >= 0 { *signer as u64 } else { 0 };
                 let sig = self.make_sig(signing_uid, *class, msg.as_bytes(), b"get subscription info");
                 let req = common_msgs::GetAppointmentRequest { locator: locator.to_vec(), signature: sig };
-                match self.rt.block_on(self.api.get_appointment(Request::new(req))) {
-                    Ok(resp) => {
-                        let r = resp.into_inner();
-                        match r.appointment_data.and_then(|d| d.appointment_data) {
-                            Some(common_msgs::appointment_data::AppointmentData::Appointment(a)) => {
-                                out.push("GA".into());
-                                out.push(self.id_of_locator.get(&a.locator).map(|x| *x as i64).unwrap_or(-2).to_string());
-                                out.extend(self.blob_tokens(&a.encrypted_blob));
-                                out.push(a.to_self_delay.to_string());
-                                out.push(r.status.to_string());
-                            }
-                            Some(common_msgs::appointment_data::AppointmentData::Tracker(t)) => {
-                                out.push("GT".into());
-                                out.push(self.txid_bytes_id(&t.dispute_txid).to_string());
-                                out.push(self.txid_bytes_id(&t.penalty_txid).to_string());
-                                // the raw penalty must be the penalty whose id is reported
-                                let raw_ok = consensus::deserialize::<Transaction>(&t.penalty_rawtx)
-                                    .map(|tx| tx.compute_txid().to_byte_array().to_vec() == t.penalty_txid)
-                                    .unwrap_or(false);
-                                out.push((raw_ok as u8).to_string());
-                                out.push(r.status.to_string());
-                            }
-                            None => out.push("G?empty".into()),
-                        }
-                    }
-                    Err(st) => out.extend(get_err_tokens(&st, "G")),
-                }
+                (Call::Get(req), Meta::Get)
             }
             Op::GetSub { signer, class } => {
                 let signing_uid = if *signer >= 0 { *signer as u64 } else { 0 };
                 let sig = self.make_sig(signing_uid, *class, b"get subscription info", b"get appointment 00");
                 let req = common_msgs::GetSubscriptionInfoRequest { signature: sig };
-                match self.rt.block_on(self.api.get_subscription_info(Request::new(req))) {
-                    Ok(resp) => {
-                        let r = resp.into_inner();
-                        out.push("SO".into());
-                        out.push(r.available_slots.to_string());
-                        out.push(r.subscription_expiry.to_string());
-                        let mut locs: Vec<i64> = r
-                            .locators
-                            .iter()
-                            .map(|l| self.id_of_locator.get(l).map(|x| *x as i64).unwrap_or(-2))
-                            .collect();
-                        locs.sort();
-                        out.push(locs.len().to_string());
-                        out.extend(locs.iter().map(|l| l.to_string()));
-                    }
-                    Err(st) => out.extend(get_err_tokens(&st, "S")),
-                }
+                (Call::GetSub(req), Meta::GetSub)
             }
             Op::Connect { hash, txs } => {
                 let real: Vec<Transaction> = txs.iter().map(|t| self.tx(*t)).collect();
                 let prev = self.chain.last().unwrap().1.header.block_hash();
                 let height = self.height() + 1;
                 let block = make_block(prev, 1_700_000_000 + height, *hash as u32, real);
-                self.call_listeners_connected(&block, height);
-                self.chain.push((*hash, block));
-                out.push("B".into());
+                self.chain.push((*hash, block.clone()));
+                (Call::Connect(block, height), Meta::Block)
             }
             Op::Disconnect => {
                 if self.chain.len() > 1 {
                     let height = self.height();
-                    let (_, block) = self.chain.last().unwrap().clone();
-                    self.call_listeners_disconnected(&block, height);
-                    self.chain.pop();
+                    let (_, block) = self.chain.pop().unwrap();
+                    (Call::Disconnect(block, height), Meta::Block)
+                } else {
+                    (Call::Nop, Meta::Block)
                 }
-                out.push("B".into());
             }
+        }
+    }
+
+    /// Canonical tokens of a reply.
+    pub fn render(&mut self, meta: &Meta, reply: Reply) -> Vec<String> {
+        let mut out: Vec<String> = Vec::new();
+        match (meta, reply) {
+            (Meta::Register(pk), Reply::Register(r)) => match r {
+                Ok(r) => {
+                    let receipt = RegistrationReceipt::with_signature(
+                        UserId(*pk),
+                        r.available_slots,
+                        r.subscription_start,
+                        r.subscription_expiry,
+                        r.subscription_signature.clone(),
+                    );
+                    let ok = receipt.verify(&self.tower_id) && r.user_id == pk.serialize().to_vec();
+                    out.push("RO".into());
+                    out.push(r.available_slots.to_string());
+                    out.push(r.subscription_start.to_string());
+                    out.push(r.subscription_expiry.to_string());
+                    out.push((ok as u8).to_string());
+                }
+                Err(st) => {
+                    out.push(if st.code() == Code::ResourceExhausted { "RM".into() } else { format!("R?{}", hex_status(st.code())) });
+                }
+            },
+            (Meta::Add { locator, sig, sid }, Reply::Add(r)) => match r {
+                Ok(r) => {
+                    // the client-side verifier: the receipt binds the user's own signature and the start block
+                    let receipt = AppointmentReceipt::with_signature(sig.clone(), r.start_block, r.signature.clone());
+                    let ok = receipt.verify(&self.tower_id) && &r.locator == locator;
+                    out.push("AO".into());
+                    out.push(r.start_block.to_string());
+                    out.push(if ok { sid.to_string() } else { "-1".into() });
+                    out.push(r.available_slots.to_string());
+                    out.push(r.subscription_expiry.to_string());
+                }
+                Err(st) => out.extend(add_err_tokens(&st)),
+            },
+            (Meta::Get, Reply::Get(r)) => match r {
+                Ok(r) => match r.appointment_data.and_then(|d| d.appointment_data) {
+                    Some(common_msgs::appointment_data::AppointmentData::Appointment(a)) => {
+                        out.push("GA".into());
+                        out.push(self.id_of_locator.get(&a.locator).map(|x| *x as i64).unwrap_or(-2).to_string());
+                        out.extend(self.blob_tokens(&a.encrypted_blob));
+                        out.push(a.to_self_delay.to_string());
+                        out.push(r.status.to_string());
+                    }
+                    Some(common_msgs::appointment_data::AppointmentData::Tracker(t)) => {
+                        out.push("GT".into());
+                        out.push(self.txid_bytes_id(&t.dispute_txid).to_string());
+                        out.push(self.txid_bytes_id(&t.penalty_txid).to_string());
+                        // the raw penalty must be the penalty whose id is reported
+                        let raw_ok = consensus::deserialize::<Transaction>(&t.penalty_rawtx)
+                            .map(|tx| tx.compute_txid().to_byte_array().to_vec() == t.penalty_txid)
+                            .unwrap_or(false);
+                        out.push((raw_ok as u8).to_string());
+                        out.push(r.status.to_string());
+                    }
+                    None => out.push("G?empty".into()),
+                },
+                Err(st) => out.extend(get_err_tokens(&st, "G")),
+            },
+            (Meta::GetSub, Reply::GetSub(r)) => match r {
+                Ok(r) => {
+                    out.push("SO".into());
+                    out.push(r.available_slots.to_string());
+                    out.push(r.subscription_expiry.to_string());
+                    let mut locs: Vec<i64> = r
+                        .locators
+                        .iter()
+                        .map(|l| self.id_of_locator.get(l).map(|x| *x as i64).unwrap_or(-2))
+                        .collect();
+                    locs.sort();
+                    out.push(locs.len().to_string());
+                    out.extend(locs.iter().map(|l| l.to_string()));
+                }
+                Err(st) => out.extend(get_err_tokens(&st, "S")),
+            },
+            (Meta::Block, _) => out.push("B".into()),
+            _ => out.push("??".into()),
         }
         out
     }
@@ -669,5 +671,80 @@ fn get_err_tokens(st: &tonic::Status, p: &str) -> Vec<String> {
         }
         Code::NotFound => vec![format!("{p}N")],
         c => vec![format!("{p}?{}", hex_status(c))],
+    }
+}
+
+/// A concrete call on the real tower.
+pub enum Call {
+    Register(common_msgs::RegisterRequest),
+    Add(common_msgs::AddAppointmentRequest),
+    Get(common_msgs::GetAppointmentRequest),
+    GetSub(common_msgs::GetSubscriptionInfoRequest),
+    Connect(Block, u32),
+    Disconnect(Block, u32),
+    Nop,
+}
+
+pub enum Reply {
+    Register(Result<common_msgs::RegisterResponse, tonic::Status>),
+    Add(Result<common_msgs::AddAppointmentResponse, tonic::Status>),
+    Get(Result<common_msgs::GetAppointmentResponse, tonic::Status>),
+    GetSub(Result<common_msgs::GetSubscriptionInfoResponse, tonic::Status>),
+    Block,
+}
+
+/// What `render` needs besides the reply.
+pub enum Meta {
+    Register(PublicKey),
+    Add { locator: Vec<u8>, sig: String, sid: u64 },
+    Get,
+    GetSub,
+    Block,
+}
+
+#[derive(Clone)]
+pub struct Runner {
+    pub api: Arc<InternalAPI>,
+    pub gatekeeper: Arc<Gatekeeper>,
+    pub watcher: Arc<Watcher>,
+    pub responder: Arc<Responder>,
+    pub order: Vec<u8>,
+}
+
+thread_local! {
+    static RT: tokio::runtime::Runtime = tokio::runtime::Builder::new_current_thread().enable_all().build().unwrap();
+}
+
+impl Runner {
+    /// Runs the call on the calling thread (may block inside the tower: locks, reachability wait).
+    pub fn run(&self, call: Call) -> Reply {
+        match call {
+            Call::Register(req) => Reply::Register(RT.with(|rt| rt.block_on(self.api.register(Request::new(req)))).map(|r| r.into_inner())),
+            Call::Add(req) => Reply::Add(RT.with(|rt| rt.block_on(self.api.add_appointment(Request::new(req)))).map(|r| r.into_inner())),
+            Call::Get(req) => Reply::Get(RT.with(|rt| rt.block_on(self.api.get_appointment(Request::new(req)))).map(|r| r.into_inner())),
+            Call::GetSub(req) => Reply::GetSub(RT.with(|rt| rt.block_on(self.api.get_subscription_info(Request::new(req)))).map(|r| r.into_inner())),
+            Call::Connect(block, height) => {
+                let txdata: Vec<(usize, &Transaction)> = block.txdata.iter().enumerate().collect();
+                for w in &self.order {
+                    match w {
+                        0 => self.gatekeeper.filtered_block_connected(&block.header, &txdata, height),
+                        1 => self.watcher.filtered_block_connected(&block.header, &txdata, height),
+                        _ => self.responder.filtered_block_connected(&block.header, &txdata, height),
+                    }
+                }
+                Reply::Block
+            }
+            Call::Disconnect(block, height) => {
+                for w in &self.order {
+                    match w {
+                        0 => self.gatekeeper.block_disconnected(&block.header, height),
+                        1 => self.watcher.block_disconnected(&block.header, height),
+                        _ => self.responder.block_disconnected(&block.header, height),
+                    }
+                }
+                Reply::Block
+            }
+            Call::Nop => Reply::Block,
+        }
     }
 }
